@@ -10,8 +10,8 @@ Definition Dm (g : graph) : nat := diameter_of (eccs_f (dist_matrix g)).
 (** the invariant of the directed variant ([Level::run]):
     lF <= ecc+ <= uF, lB <= ecc- <= uB, dL <= D and its vertex attains it (once dL > 0),
     every lower bound is below dL, R <= rU and its vertex attains it (once rU has left its
-    initial value n-1), and a radial vertex whose forward bounds have met is accounted for
-    in rU *)
+    initial value n, which no eccentricity reaches), and a radial vertex whose forward bounds
+    have met is accounted for in rU *)
 Record inv (g : graph) (radial : list bool) (x : st) : Prop := mkInv {
   i_len : length (lF x) = length g /\ length (uF x) = length g /\
           length (lB x) = length g /\ length (uB x) = length g;
@@ -22,18 +22,21 @@ Record inv (g : graph) (radial : list bool) (x : st) : Prop := mkInv {
   i_lFd : forall v, v < length g -> nth v (lF x) 0 <= dL x;
   i_lBd : forall v, v < length g -> nth v (lB x) 0 <= dL x;
   i_rU : forall r, radius_from (eccs_f (dist_matrix g)) radial = Some r -> r <= rU x;
-  i_rv : rU x = length g - 1 \/
+  i_rv : rU x = length g \/
          (rv x < length g /\ nth (rv x) radial false = true /\ EF g (rv x) = rU x);
   i_R : forall v, v < length g -> nth v radial false = true ->
         nth v (lF x) 0 = nth v (uF x) 0 -> rU x <= nth v (lF x) 0 }.
 
 (** an operation is legal when its pivot is a node and, for a backward visit, the visiting
-    order contains every node the visit reaches (any order, repetitions harmless) *)
+    order contains every node the visit reaches (any order, repetitions harmless); the
+    order of a forward visit is irrelevant in the directed variant, and the SCC step (whose
+    directed branch is not modelled) is excluded *)
 Definition legal_op (g : graph) (o : op) : Prop :=
   match o with
-  | OFwd s => s < length g
+  | OFwd s _ => s < length g
   | OBwd s order => s < length g /\
       forall v, v < length g -> dget (dist_matrix g) v s <> None -> In v order
+  | OAll _ _ => False
   end.
 
 (** every visit preserves the invariant: for ANY pivot and any visiting order *)
@@ -53,41 +56,52 @@ Definition S_exit_exact : Prop :=
   missing_nodes l (find_missing false (length g) radial x) = 0 ->
   check_values (dist_matrix g) radial (output false (length g) radial x) l = true.
 
-(** ... and the reported radial vertex attains the radius, PROVIDED the radius is below the
-    initial upper bound n-1 *)
+(** ... and, at every level that reports a radius, the reported radial vertex is a radial
+    vertex attaining it (no side condition any more: the initial bound n is never a radius) *)
 Definition S_exit_radial_vertex : Prop :=
   forall g radial l x, wf_graph g = true -> 0 < length g -> inv g radial x ->
+  wants_rad l = true ->
   missing_nodes l (find_missing false (length g) radial x) = 0 ->
-  rU x <> length g - 1 ->
   check_rv (dist_matrix g) radial (output false (length g) radial x) = true.
 
 (** full property for the machine: any legal sequence of visits that reaches the exit
-    condition yields an output accepted by the checker (radius below n-1) *)
+    condition yields an output accepted by the complete checker *)
 Definition S_machine_exact : Prop :=
   forall g radial ops l, wf_graph g = true -> 0 < length g -> Forall (legal_op g) ops ->
   fst (replay false g radial ops l) = 0 ->
-  let o := snd (replay false g radial ops l) in
-  check_values (dist_matrix g) radial o l = true /\
-  (o_rad o <> Some (length g - 1) -> check_rv (dist_matrix g) radial o = true).
+  check_ess g radial (snd (replay false g radial ops l)) l = true.
 
-(** DEFECT 1 (refutation of "the radial vertex attains the radius"): when the radius equals
-    the initial upper bound the vertex stays 0.  Witness: arcs {1->0}, radial vertices {1},
-    the visits the implementation performs. *)
+(** DEFECT 1, PRE-REPAIR RULES (initial bound n-1 / strict comparison; repaired by 46b2bda):
+    refutation of "the radial vertex attains the radius": when the radius equals the initial
+    upper bound the vertex stays 0.  Witness: arcs {1->0}, radial vertices {1}, the visits
+    the implementation performed. *)
 Definition S_radial_vertex_refuted : Prop :=
   exists g radial ops l, wf_graph g = true /\ Forall (legal_op g) ops /\
-    fst (replay false g radial ops l) = 0 /\
-    check_rv (dist_matrix g) radial (snd (replay false g radial ops l)) = false.
+    fst (replay_prefix false g radial ops l) = 0 /\
+    check_rv (dist_matrix g) radial (snd (replay_prefix false g radial ops l)) = false.
 
-(** DEFECT 2 (refutation of exactness of the radius for [run_symm]): a visit labelled
-    backward fixes the bounds of its start vertex without updating rU.  Witness: two nodes,
-    a loop on node 1, default radial set {0}. *)
+(** DEFECT 2, PRE-REPAIR RULES (repaired by 42ca92a, f9241dd): refutation of exactness of the
+    radius for [run_symm]: a visit labelled backward fixes the bounds of its start vertex
+    without updating rU.  Witness: two nodes, a loop on node 1, default radial set {0}. *)
 Definition S_symm_radius_refuted : Prop :=
   exists g radial ops l, wf_graph g = true /\
     (forall u v, In v (succs g u) -> In u (succs g v)) /\
-    fst (replay true g radial ops l) = 0 /\
-    check_rad (dist_matrix g) radial (snd (replay true g radial ops l)) = false.
+    fst (replay_prefix true g radial ops l) = 0 /\
+    check_rad (dist_matrix g) radial (snd (replay_prefix true g radial ops l)) = false.
 
-(** the SCC-based refinement [all_cc_upper_bound] (stated, not proved): replacing the upper
+(** the same witnesses under the repaired rules: accepted by the complete checker *)
+Definition S_witnesses_repaired : Prop :=
+  (let g := [[]; [0]] in let radial := [false; true] in
+   let ops := [OFwd 1 []; OBwd 0 [0; 1]; OFwd 0 []; OBwd 1 [1]] in
+   fst (replay false g radial ops LRadius) = 0 /\
+   check_ess g radial (snd (replay false g radial ops LRadius)) LRadius = true) /\
+  (let g := [[]; [1]] in let radial := [true; false] in
+   let ops := [OFwd 1 [1]; OBwd 0 [0]] in
+   fst (replay true g radial ops LRadius) = 0 /\
+   check_ess g radial (snd (replay true g radial ops LRadius)) LRadius = true).
+
+(** the SCC-based refinement [all_cc_upper_bound], DIRECTED branch (the symmetric branch is an
+    operation of the machine, see EssSymmStatements.v): replacing the upper
     bounds by values that are still upper bounds, and updating rU/rv for the radial
     vertices whose bounds have met, preserves the invariant.  The abstract form below is
     what the invariant needs from that step; that the values computed through the SCC DAG
